@@ -19,6 +19,7 @@ ASSUMPTIONS = ['nan is not generated (nan != nan)', 'frozensets containing float
                "round() itself is the scalar primitive of both sides: only klepto's traversal is being checked"]
 
 N = {'quick': 1000, 'thorough': 12000}
+FUZZ_SECONDS = 180      # thorough tier: coverage-guided campaign over the same strategy and oracle (tools/fuzz.py)
 SHARDS = {'quick': 4, 'thorough': 16}
 
 TOLS = [None, 0, 1, 2, -1, 3, -2, 6, 12, -12, -3]
